@@ -96,7 +96,9 @@ def kind_of(p):
     if name == "abs_proposal":
         return "PAbs"
     if name == "boundary_proposal":
-        return f"(PBnd {C.cq(fr(p.lower))} {C.cq(fr(p.upper))})"
+        # with non-negativity also switched on, the fold is into [max(lower, 0), upper]
+        lower = max(p.lower, 0.0) if getattr(p, "_non_negative", False) else p.lower
+        return f"(PBnd {C.cq(fr(lower))} {C.cq(fr(p.upper))})"
     return None
 
 
@@ -242,7 +244,7 @@ def coq_ens_case(rec, qp, pinned=False):
     st = (f"(mkES {qmat(pr['pos'])} {qlist(pr['probs'])} {bounds_coq(pr['bounds'])} {C.cq(pr['xlwr'])} "
           f"{C.cq(pr['xwidth'])} {C.cnat(pr['max_attempts'])} 0%nat)")
     obs = f"(mkEO {qmat(o['pos'])} {qlist(o['probs'])} {events_coq(rec.events)} {C.cnat(o['failed'])})"
-    return f"(check_ens {C.cbool(pinned)} {C.cq(TOL)} {qp} {st} {qlist(rec.tape)} {obs})"
+    return f"(check_ens {C.cbool(pinned)} {C.cq(TOL)} {qp} {C.cq(pr['alpha'])} {st} {qlist(rec.tape)} {obs})"
 
 
 # ------------------------------------------------------------------ running cases in Coq
